@@ -219,6 +219,34 @@ def run(ck):
             if devt > (2e-4 if kern == 'l2_high_dim' else 2e-6) * (1 + float(np.abs(Pt_).max())):
                 ck.violation(f'predictions change by {devt:.3g} when the {nt} training points and the queries are rescaled by {c} on {desct}', dict(desct, c=c, dev=devt, X=Xt_.tolist()),
                              key=json.dumps(dict(site='scale-invariance', tiny=True)))
+    # ---- declared categorical columns handled by the fast path (identity embeddings), adaptive mode, exponents other than 1: the stored bandwidth is base x median of the
+    #      pairwise distances between the (one-hot) training rows, exactly as for the dense evaluation
+    crng = np.random.default_rng(ck.seed + 1991)
+    for i in range(ck.n(4, 12)):
+        kernc = ['l2', 'lpq'][i % 2]; qc = [1.4, 2.0, 0.7, 1.0][i % 4] if kernc == 'l2' else [1.4, 1.0][(i // 2) % 2]; basec = [2.0, 0.6][i % 2]
+        levc = [3, 2]; nnc = 2; dc_ = nnc + sum(levc); ncat = 31
+        Xc_ = np.zeros((ncat, dc_)); Xc_[:, :nnc] = crng.standard_normal((ncat, nnc)); o_ = nnc
+        for lv in levc:
+            Xc_[np.arange(ncat), o_ + crng.integers(0, lv, size=ncat)] = 1.0; o_ += lv
+        Yc_ = crng.standard_normal((ncat, 1)); o_ = nnc; cidx = []
+        for lv in levc:
+            cidx.append(torch.arange(o_, o_ + lv)); o_ += lv
+        cinfo = dict(numerical_indices=torch.arange(nnc), categorical_indices=cidx, categorical_vectors=[torch.eye(lv, dtype=torch.float64) for lv in levc])
+        descc = dict(kind='categorical fast path, adaptive', i=i, kernel=kernc, exponent=qc, base=basec, n=ncat, seed=ck.seed)
+        try:
+            xr.seed_all(1990 + i + ck.seed)
+            mc_ = xr.RealRFM(kernel=kernc, iters=0, bandwidth=basec, exponent=qc, bandwidth_mode='adaptive', device='cpu', diag=False, verbose=False, tuning_metric='mse',
+                             categorical_info=cinfo, fast_categorical=True, **(dict(norm_p=1.5) if kernc == 'lpq' else {}))
+            with xr.quiet():
+                mc_.fit((T(Xc_), T(Yc_)), (T(Xc_[:6]), T(Yc_[:6])), iters=0, reg=1e-2, verbose=False)
+        except Exception as e:
+            ck.notes.append(f'categorical adaptive fit failed on {descc}: {e!r}'[:250]); ck.count('categorical adaptive fit failed'); continue
+        Dc_ = kernel_distance_matrix(mc_, mc_.centers); offc = Dc_[~torch.eye(ncat, dtype=torch.bool)]
+        medc = float(torch.sort(offc).values[(len(offc) - 1) // 2]); gotc = float(mc_.kernel_obj.bandwidth)
+        ck.case(dict(descc, bandwidth=gotc, expected=basec * medc, fast=bool(mc_.kernel_obj.handle_categorical)), nontrivial=True); ck.count('categorical fast path, adaptive bandwidth')
+        if abs(gotc - basec * medc) > 1e-9 * max(1.0, basec * medc):
+            ck.violation(f'stored bandwidth {gotc!r} != base bandwidth {basec} x lower median {medc!r} of the pairwise distances of the one-hot training rows (= {basec * medc!r}) '
+                         f'with the categorical fast path on {descc}', dict(descc, got=gotc, want=basec * medc), key=json.dumps(dict(site='bandwidth', categorical=True)))
     # ---- logistic leaf solver (binary classification, zero/one encoding) in adaptive mode: the bandwidth stored with the leaf is still base x median of the pairwise
     #      distances between ITS TRAINING POINTS (the validation points, here concentrated away from the training cloud, play no part in it)
     for i in range(ck.n(4, 12)):
